@@ -194,7 +194,12 @@ def id_value(cls, bits, rnd):
 # ----------------------------------------------------------------------------- per property
 def finish(prop, tier, seed, t0, level, tlc_states, tlc_trans, evaluations, distinct, rule, samples, viols, lines, extra, replay_info):
     import runner
-    new = [v for v in viols if v["p"] == prop]
+    _, known = E.load_known()
+    sigs = {k["signature"]: k for k in known if k.get("property") == prop}
+    listed = [v for v in viols if v["p"] == prop and v["w"] in sigs]
+    for sig in sorted({v["w"] for v in listed}):
+        print("KNOWN-FINDING: property=%s %s %s" % (prop, sigs[sig]["id"], sigs[sig].get("what", "")))
+    new = [v for v in viols if v["p"] == prop and v["w"] not in sigs]
     harness_issues = [v for v in viols if v["p"] == "HARNESS"]
     if harness_issues:
         raise E.ToolError("harness concretisation disagrees with the specification: %s" % harness_issues[:3])
@@ -313,4 +318,47 @@ def run_c19(prop, tier, seed, replay):
                   [dict(kind=json.loads(l)["kind"], n=len(json.loads(l)["in"])) for l in lines[:3]], viols, lines, dict(batches=len(cases), exhaustive=False), dict(kind="report"))
 
 
-SIDE = {"C20": run_c20, "C12": run_c12, "C19": run_c19}
+def run_c15(prop, tier, seed, replay):
+    import macrogen
+    t0 = time.time()
+    rnd = random.Random(seed)
+    mc = tlc_side("MC_Macro", "CONSTANT MaxBody = %d\nINIT Init\nNEXT Next\n" % (2 if tier == "quick" else 3), "C15-mc", timeout=1200)
+    cases = mc["cases"]
+    cap = 700 if tier == "quick" else 3000
+    if len(cases) > cap:
+        # keep every kind x naming x property combination, sample the bodies
+        keep, seen = [], set()
+        rnd.shuffle(cases)
+        for c in cases:
+            key = (c["kind"], c["naming"], c["props"])
+            if key not in seen:
+                seen.add(key)
+                keep.append(c)
+        rest = [c for c in cases if c not in keep]
+        cases = keep + rest[:cap - len(keep)]
+    mh = os.path.join(E.VERIF, "macroharness")
+    macrogen.generate(cases, os.path.join(mh, "src", "gen.rs"))
+    lock = os.path.join(mh, "Cargo.lock")
+    if not os.path.exists(lock):
+        shutil.copy("/repo/Cargo.lock", lock)
+    r = subprocess.run(["cargo", "build", "--offline"], cwd=mh, stdout=subprocess.PIPE, stderr=subprocess.STDOUT, text=True, env=dict(os.environ, CARGO_NET_OFFLINE="true"))
+    if r.returncode != 0:
+        # a twin pair that no longer compiles is a change in what the macro accepts or generates
+        sys.stderr.write(r.stdout[-3000:])
+        raise E.ToolError("generated twin functions do not compile against /repo's macro")
+    d = os.path.join(E.OUT, "side", "C15")
+    os.makedirs(d, exist_ok=True)
+    obs = os.path.join(d, "obs.ndjson")
+    rr = subprocess.run([os.path.join(mh, "target", "debug", "fvmacro"), obs], stdout=subprocess.PIPE, stderr=subprocess.PIPE, text=True, timeout=600)
+    if rr.returncode != 0:
+        raise E.ToolError("macro harness failed: " + rr.stderr[-2000:])
+    viols, consumed, lines = validate_side(obs, "C15")
+    E.log("C15: %d twin pairs compiled and run, %d violations" % (consumed, len(viols)))
+    return finish(prop, tier, seed, t0, "exploration", 0, 0, consumed, len(cases),
+                  "TLC enumerates function kind x naming x properties x bodies (up to %d statements over effect / by-ref use / by-value move / ok? / err? / early return / panic / await / "
+                  "nested annotated call) of Macro.tla with the body's meaning; each is generated as a plain and an annotated Rust function, compiled against /repo's macro crate and run "
+                  "with and without a local parent; distinct = generated pairs" % (2 if tier == "quick" else 3),
+                  [json.loads(l)["case"] for l in lines[:3]], viols, lines, dict(pairs=len(cases), exhaustive=False), dict(kind="macro"))
+
+
+SIDE = {"C20": run_c20, "C12": run_c12, "C19": run_c19, "C15": run_c15}
